@@ -342,7 +342,15 @@ func TestPrefixAndConstructMixes(t *testing.T) {
 				pgen.Prefix{Op: "-", E: pgen.Call{Recv: a, Chain: ch, Form: "prop", Name: "x"}},
 				pgen.Call{Recv: pgen.Prefix{Op: "-", E: a}, Chain: ch, Form: "prop", Name: "x"},
 				pgen.Call{Recv: pgen.Call{Recv: a, Chain: ch, Form: "prop", Name: "x"}, Chain: ".", Form: "prop", Name: "y"},
-				I(pgen.Call{Chain: ch, Form: "prop", Name: "x"}, b))
+				I(pgen.Call{Chain: ch, Form: "prop", Name: "x"}, b),
+				// the same chain continued on the next line
+				I(a, pgen.Call{Recv: b, Chain: ch, Form: "prop", Name: "x", Multiline: true}), I(pgen.Call{Recv: a, Chain: ch, Form: "prop", Name: "x", Multiline: true}, b),
+				pgen.Call{Recv: I(a, b), Chain: ch, Form: "prop", Name: "x", Multiline: true},
+				pgen.Call{Recv: pgen.Prefix{Op: "-", E: a}, Chain: ch, Form: "prop", Name: "x", Multiline: true}, pgen.Prefix{Op: "!", E: pgen.Call{Recv: a, Chain: ch, Form: "prop", Name: "x", Multiline: true}},
+				pgen.Call{Recv: pgen.Call{Recv: a, Chain: ch, Form: "prop", Name: "x", Multiline: true}, Chain: ".", Form: "prop", Name: "y"},
+				pgen.Call{Recv: pgen.Call{Recv: a, Chain: ".", Form: "prop", Name: "x"}, Chain: ch, Form: "prop", Name: "y", Multiline: true},
+				pgen.Assign{Name: "v", E: pgen.Call{Recv: I(a, b), Chain: ch, Form: "lit", Name: "{|x| x}", Multiline: true}},
+				pgen.If{Then: pgen.Call{Recv: a, Chain: ch, Form: "prop", Name: "x", Multiline: true}, Cond: I(b, c)})
 		}
 	}
 	flush(t, &buf, true)
@@ -391,6 +399,9 @@ func genNode(depth int) *rapid.Generator[pgen.Node] {
 			}
 			if rapid.IntRange(0, 5).Draw(t, "norecv") == 0 {
 				c.Recv = nil
+			}
+			if c.Recv != nil && rapid.IntRange(0, 3).Draw(t, "multiline") == 0 {
+				c.Multiline = true
 			}
 			return c
 		case 16:
